@@ -129,6 +129,12 @@ M = [
   "header.level <= first_header_level(range.clone(), content).unwrap()", "header.level <= first_header_level(range.clone(), content).unwrap() + 1", {"C07": 1}),
  ("benign_positions_end_exclusive", "crates/liwe/src/graph/sections_builder.rs",
   ".filter(|&x| x <= range.end)", ".filter(|&x| x < range.end)", {"C07": 0, "C01": 0}),
+ ("positions_window_overshoots", "crates/liwe/src/graph/sections_builder.rs",
+  "        let positions = content\n            .iter()\n            .positions(|x| match x {\n                Header(header) => {\n                    header.level <= first_header_level(range.clone(), content).unwrap()\n                }\n                _ => false,\n            })\n            .filter(|&x| x >= first_header.unwrap_or(range.start))\n            .filter(|&x| x <= range.end)\n            .collect_vec();",
+  "        let start = first_header.unwrap_or(range.start);\n        let positions = content\n            .iter()\n            .skip(start)\n            .take(range.len())\n            .positions(|x| match x {\n                Header(header) => {\n                    header.level <= first_header_level(range.clone(), content).unwrap()\n                }\n                _ => false,\n            })\n            .map(|x| x + start)\n            .collect_vec();", {"C07": 1}),
+ ("benign_positions_window_exact", "crates/liwe/src/graph/sections_builder.rs",
+  "        let positions = content\n            .iter()\n            .positions(|x| match x {\n                Header(header) => {\n                    header.level <= first_header_level(range.clone(), content).unwrap()\n                }\n                _ => false,\n            })\n            .filter(|&x| x >= first_header.unwrap_or(range.start))\n            .filter(|&x| x <= range.end)\n            .collect_vec();",
+  "        let start = first_header.unwrap_or(range.start);\n        let positions = content\n            .iter()\n            .skip(start)\n            .take(range.end - start)\n            .positions(|x| match x {\n                Header(header) => {\n                    header.level <= first_header_level(range.clone(), content).unwrap()\n                }\n                _ => false,\n            })\n            .map(|x| x + start)\n            .collect_vec();", {"C07": 0, "C03": 0}),
  ("first_header_level_reversed", "crates/liwe/src/graph/sections_builder.rs",
   "    range.into_iter().find_map(|i| match content[i].clone() {", "    range.into_iter().rev().find_map(|i| match content[i].clone() {", {"C07": 2}),
  ("first_header_skips_range_start", "crates/liwe/src/graph/sections_builder.rs",
